@@ -345,4 +345,94 @@ def gapBound (x g y : Vec α) : α :=
 def contractB (boundAware : Bool) (bounds : Bounds α) (fx0 fxs : α) (xs : Vec α) (n : Nat) : Bool :=
   xs.length == n && (!boundAware || inBox bounds xs) && Num.le fxs fx0
 
+/-! ## bootstrap and sequences of operations on one `BIOGEME` object -/
+
+/-- the likelihood of one data set: its value and its value with derivatives -/
+structure Objective (α : Type) where
+  like : Vec α → α
+  ev : Vec α → Eval α
+
+/-- a results object: what `estimate` / `quick_estimate` report, and the bootstrap estimates
+(`results.data.bootstrap`, `None` when there are none) -/
+structure Report (α : Type) where
+  res : Result α
+  bootstrap : Option (List (Vec α))
+
+/-- `BIOGEME.estimate(run_bootstrap=…)`: the final evaluation at x* is made on the data of the
+database *before* the re-estimations; with bootstrapping (`boot = some samples`) the model is
+re-estimated from x* on every resampled data set (the engine is handed the sample, the optimiser
+the same bounds), and the data of the database are restored afterwards.  The values packaged
+into the results are the ones of the final evaluation. -/
+def estimateBoot (like : Vec α → α) (ev : Vec α → Eval α) (fd : Vec α → Mat α) (opt : Optimizer α)
+    (bounds : Bounds α) (x0 : Vec α) (boot : Option (List (Objective α))) : Report α :=
+  let r := estimate like ev fd opt bounds x0
+  { res := r,
+    bootstrap := boot.map fun ss => ss.map fun s => (opt (negF s.like) (negFG s.ev) (negFGH s.ev) bounds r.x).x }
+
+/-- what does not change during the life of one `BIOGEME` object -/
+structure Env (α : Type) where
+  names : List String          -- id_manager.free_betas.names
+  obj : Objective α            -- likelihood of the data of the database
+  fd : Vec α → Mat α           -- likelihood_finite_difference_hessian
+  opt : Optimizer α
+  bounds : Bounds α            -- id_manager.bounds
+
+/-- what one `BIOGEME` object remembers between two calls -/
+structure Session (α : Type) where
+  params : List (Param α)                 -- the Beta objects of the formulas (initValue, status)
+  idValues : Vec α                        -- id_manager.free_betas_values: where `estimate` starts
+  initLogLike : Option α                  -- self.initLogLike
+  bootstrap : Option (List (Vec α))       -- self.bootstrap_results
+
+/-- public operations on the object -/
+inductive Op (α : Type) where
+  /-- `calculate_likelihood`, `calculate_likelihood_and_derivatives` (any flags, scaled or not),
+  `check_derivatives`, `likelihood_finite_difference_hessian` at an explicit point -/
+  | eval (x : Vec α)
+  /-- `calculate_init_likelihood()` -/
+  | initLikelihood
+  /-- `estimate(run_bootstrap = boot.isSome)` -/
+  | estimate (boot : Option (List (Objective α)))
+  /-- `quick_estimate()` -/
+  | quickEstimate
+  /-- `change_init_values(vals)` -/
+  | changeInit (vals : List (String × α))
+
+/-- `BIOGEME.change_init_values` on `id_manager.free_betas_values`: the i-th value is replaced
+when the i-th free name is a key -/
+def setIdValues (names : List String) (vals : List (String × α)) (xs : Vec α) : Vec α :=
+  List.zipWith (fun n x => (vals.lookup n).getD x) names xs
+
+/-- one operation: new state of the object and the results object it returns, if any.
+Evaluations at an explicit point leave no trace.  `estimate` starts from
+`id_manager.free_betas_values`, writes the estimates into the Beta objects of the formulas
+(not into `id_manager.free_betas_values`: a second `estimate` starts from the same values again),
+stores the initial likelihood and the bootstrap estimates (`None` without bootstrapping).
+`quick_estimate` changes nothing and reports the stored initial likelihood and bootstrap. -/
+def step (e : Env α) (s : Session α) : Op α → Session α × Option (Report α)
+  | .eval _ => (s, none)
+  | .initLikelihood => ({ s with initLogLike := some (e.obj.like s.idValues) }, none)
+  | .estimate boot =>
+    let r := estimateBoot e.obj.like e.obj.ev e.fd e.opt e.bounds s.idValues boot
+    ({ params := writeBack s.params (estimates e.names r.res.x), idValues := s.idValues,
+       initLogLike := r.res.initLogLike, bootstrap := r.bootstrap }, some r)
+  | .quickEstimate =>
+    (s, some { res := quickEstimate e.obj.like e.obj.ev e.opt e.bounds s.idValues s.initLogLike,
+               bootstrap := s.bootstrap })
+  | .changeInit vals =>
+    ({ s with params := writeBack s.params vals, idValues := setIdValues e.names vals s.idValues }, none)
+
+/-- a sequence of operations: final state and the results objects in the order they were returned -/
+def run (e : Env α) : Session α → List (Op α) → Session α × List (Report α)
+  | s, [] => (s, [])
+  | s, op :: ops =>
+    let r1 := step e s op
+    let r2 := run e r1.1 ops
+    (r2.1, match r1.2 with
+      | some r => r :: r2.2
+      | none => r2.2)
+
+/-- a results object that comes from `estimate` (it carries derivatives) -/
+def Report.full (r : Report α) : Bool := r.res.g.isSome
+
 end Estimate
